@@ -225,8 +225,10 @@ def jobs(tier):
     for burn in (1, 2, 3):
         for direction in (None, "positive", "negative"):
             for pre in (None, "drift"):
-                for since in range(0, 3 if q else 4):
+                for since in range(0, 4):
                     for older in (0, 2):
+                        if q and since == 3 and not (pre == "drift" and burn == 2 and older == 2):
+                            continue  # quick: the one re-estimation step whose buffer still holds an earlier epoch
                         if pre == "drift" and (since <= burn or older + since < burn):
                             continue
                         if pre == "drift" and burn == 1:
